@@ -167,6 +167,31 @@ def run(res, tier, seed):
                                'text': common.dec_str(small_line.split(' ')[1]) if ' ' not in small_line.split(' ', 1)[1] else small_line, 'line': small_line,
                                'model_says': m, 'impl_says': o, 'case_key': 'C08|' + small_line[:300]})
     res.count('parser_function_disagreements', len(bad))
+    # the rbql-js twins (separate implementation: spaces-only strip, `SET` without trailing space, `&&`, assertion instead of
+    # a parsing error for SELECT+UPDATE): Model/ParseJs.lean against rbql.js on the same texts
+    jlines = []
+    for l in lines:
+        op, payload = l.split(' ', 1)
+        if op == 'actions':
+            jlines.append('actionsjs ' + payload)
+        elif op == 'joinexpr':
+            jlines.append('joinexprjs ' + payload)
+            if rnd.random() < 0.3:
+                jlines.append('joinexprjs ' + enc_str(common.dec_str(payload).replace(' and ', ' && ').replace(' AND ', ' &&  ')))
+    badj = common.differential(res, jlines, impls=('js',))
+    seenj = set()
+    for b in badj[:40]:
+        op, payload = b['line'].split(' ', 1)
+        small = common.shrink(common.dec_str(payload), lambda s2: '%s %s' % (op, enc_str(s2)), 'js')
+        small_line = '%s %s' % (op, enc_str(small))
+        if small_line in seenj or len(seenj) >= 6:
+            continue
+        seenj.add(small_line)
+        _, m, o = common.disagrees(small_line, 'js')
+        res.violations.append({'property': 'C08', 'impl': 'js', 'why': 'rbql.js shallow parser function differs from the model (Model/ParseJs.lean)', 'op': op, 'text': small, 'line': small_line,
+                               'model_says': m, 'impl_says': o, 'case_key': 'C08|js|' + small_line[:300]})
+    res.count('js_parser_function_lines', len(jlines))
+    res.count('js_parser_function_disagreements', len(badj))
     # (2) respellings through the public entry point
     cases = gen_query_cases(rnd, 600 if tier == 'quick' else 8000)
     K = 8 if tier == 'quick' else 24
